@@ -52,7 +52,7 @@ func judgeWellFormed(c *core.Ctx, stream string, idx int, p model.Piece, f model
 	}
 	c.Count("events_decoded", n)
 	c.Seen("track_counts", fmt.Sprint(f.Tracks()))
-	if idx%250 == 0 {
+	if c.WantSample() {
 		d := pieceDesc(p, f)
 		d["file_bytes"] = len(out)
 		d["events"] = n
